@@ -117,6 +117,12 @@ func init() {
 					add(seq.Op{Kind: seq.Create, Actor: model.Auto, Key: "a", Split: s})
 				}
 			}
+			// chunk-size patterns within one write: large, small, medium (and permutations), for the source
+			// reader of SetReader and for a paced Create
+			for _, pat := range [][]int{{5, 1, 3}, {3, 1, 5}, {1, 5, 3}, {3000, 10, 2048}, {2048, 1, 2047, 2049}, {40000, 7, 32768}, {7, 0, 7}} {
+				add(seq.Op{Kind: seq.SetReader, Actor: model.Auto, Key: "a", Split: pat})
+				add(seq.Op{Kind: seq.Create, Actor: model.Auto, Key: "a", Split: pat, Paced: true})
+			}
 			return out
 		}
 		return f
@@ -304,5 +310,20 @@ func grpcVariant(name string, gopen func(dbh.Spec) (*dbh.Inst, error), unknownCt
 func RegisterGRPC(gopen func(dbh.Spec) (*dbh.Inst, error), unknownCtx func(context.Context, string) context.Context) {
 	for _, n := range []string{"kv", "kv-len", "iso", "late"} {
 		grpcVariant(n, gopen, unknownCtx)
+	}
+}
+
+// Real-engine variants: the same alphabets replayed on the real Badger engine, real files, real
+// goroutines and real time (no scheduler): the conformance tier binding the virtual platform to reality.
+func init() {
+	for _, n := range []string{"kv", "kv-len", "iso", "late"} {
+		name := n
+		seq.Register("real-"+name, func(p string) *seq.Family {
+			f := seq.Lookup(name, p)
+			nf := *f
+			nf.Opt.Free = true
+			nf.Opt.OpenFn = dbh.OpenReal
+			return &nf
+		})
 	}
 }
